@@ -211,8 +211,9 @@ Inductive event :=
                          than deleting the selected keys would (a cascade shortened the target table) *)
 | EvSetDefault        (* SET DEFAULT wrote a default that is not NULL (never checked against the parent) *)
 | EvPartial           (* the statement returned an error after it had already changed the database *)
-| EvOverwrite         (* FK update check: two collected child updates address the same child row;
-                         the second, built from the unmodified clone, overwrites the first *)
+| EvOverwrite         (* FK update check: two foreign keys of one child table both matched the old key; a row
+                         matched by both is written twice, the second write (built from the unmodified
+                         clone) overwrites the first *)
 | EvSideEffect        (* ON UPDATE CASCADE wrote into a column that also belongs to the child's
                          primary key or to another foreign key of the child (never re-checked, not propagated) *)
 | EvSelfRefPkUpdate   (* UPDATE assigns a primary-key column of a table that references itself *)
@@ -658,14 +659,13 @@ Fixpoint scan_tables (ord : list nat) (d : db) (pname : nat) (oldk newk : key)
       end
   end.
 
-(** two batches of the same child table that address a common row index *)
+(** two collected batches address the same child table: two foreign keys of one child both
+    matched the old key.  A row matched by both is written twice and the second write, built
+    from the unmodified clone, undoes the first.  (The class is taken per table, not per row.) *)
 Fixpoint batches_overlap (bs : list child_batch) : bool :=
   match bs with
   | [] => false
-  | (cn, ups) :: rest =>
-      existsb (fun b => Nat.eqb (fst b) cn
-                        && existsb (fun p => nat_mem (fst p) (map fst ups)) (snd b)) rest
-      || batches_overlap rest
+  | (cn, _) :: rest => existsb (fun b => Nat.eqb (fst b) cn) rest || batches_overlap rest
   end.
 
 (** `for (table, updates) in cascade_updates { for (idx,row) in updates { update_row(idx,row)? } }` *)
@@ -775,6 +775,18 @@ Inductive visitres :=
 | VisCycle                      (* "Circular foreign key dependency detected" *)
 | VisFuel.
 
+(** the `for child in children { visit(child)? }` loop, with the recursive call abstracted *)
+Fixpoint visit_children (rec : nat -> list nat -> list nat -> list nat -> visitres)
+         (stack : list nat) (cs : list nat) (visited order : list nat) : visitres :=
+  match cs with
+  | [] => VisOk visited order
+  | c :: rest =>
+      match rec c stack visited order with
+      | VisOk v o => visit_children rec stack rest v o
+      | other => other
+      end
+  end.
+
 (** collect_fk_dependencies::visit (DFS, post-order, recursion-stack cycle detection) *)
 Fixpoint visit (fuel : nat) (ord : list nat) (d : db) (x : nat) (stack visited order : list nat)
   : visitres :=
@@ -784,16 +796,7 @@ Fixpoint visit (fuel : nat) (ord : list nat) (d : db) (x : nat) (stack visited o
       if nat_mem x stack then VisCycle
       else if nat_mem x visited then VisOk visited order
       else
-        let fix go (cs : list nat) (visited order : list nat) : visitres :=
-          match cs with
-          | [] => VisOk visited order
-          | c :: rest =>
-              match visit f ord d c (x :: stack) visited order with
-              | VisOk v o => go rest v o
-              | other => other
-              end
-          end in
-        match go (fk_children ord d x) (x :: visited) order with
+        match visit_children (visit f ord d) (x :: stack) (fk_children ord d x) (x :: visited) order with
         | VisOk v o => VisOk v (o ++ [x])
         | other => other
         end
